@@ -312,7 +312,7 @@ class HybridClass(metaclass=MetaHybridClass):
                 out[ff] = vv.to_dict()
             elif hasattr(vv, "_to_dict"):
                 out[ff] = vv._to_dict()
-            elif np.any(defaults.get(ff) != vv):
+            elif np.any(defaults.get(obj._inverse_rename.get(ff, ff)) != vv):
                 # Only include those scalar values that are not default.
                 out[ff] = vv
 
